@@ -677,7 +677,7 @@ def main():
         fp = fingerprint(res)
         size = len(json.dumps(sc))
         alts.setdefault(fp, []).append((size, res, sc, race))
-        alts[fp] = sorted(alts[fp], key=lambda x: x[0])[:6]
+        alts[fp] = sorted(alts[fp], key=lambda x: x[0])[:10]
         if fp not in cands or size < len(json.dumps(cands[fp][1])):
             cands[fp] = (res, sc, race)
 
@@ -732,7 +732,7 @@ def main():
                     log("note: candidate idx=%s did not reproduce alone, idx=%s with the same fingerprint does" % (res.get("idx"), res2.get("idx")))
                     res, sc, race, binp, xenv, again = res2, sc2, race2, binp2, xenv2, again2
                     break
-        if again.get("verdict") != "violation" and res.get("_seq") and res.get("idx") is not None and res.get("kind") != "runaway-handler":
+        if again.get("verdict") != "violation" and res.get("_seq") and res.get("idx") is not None and res.get("kind") not in ("runaway-handler", "concurrent-map-access"):
             # still nothing: the run may depend on state the worker's earlier runs left in the process (package-level
             # variables, pools).  Replay it behind the runs that preceded it in its worker, doubling the history.
             base_w, lo_w, stride_w = res["_seq"]
@@ -758,6 +758,13 @@ def main():
                 log("note: fingerprint moved on confirmation: %s -> %s" % (fp, fp2))
                 fp = fp2
                 res = again
+            elif res.get("kind") == "concurrent-map-access":
+                # the race detector also pairs an access of this run with one made by a goroutine of an EARLIER run of
+                # the same worker process (package-level maps): those two handlers never ran at the same time.  Only a
+                # report that reproduces in a fresh process with this scenario alone is a same-step conflict.
+                log("note: race report at idx=%s did not reproduce alone (pairs with an earlier run's goroutine); not attributed" % res.get("idx"))
+                unattributed.append(res)
+                continue
             elif res.get("kind") == "runaway-handler":
                 # the RSS of a worker is cumulative over its runs, and CPU seconds per step inflate on a heavily
                 # loaded machine: a budget kill that does not reproduce alone in a fresh process is not a property
